@@ -1,6 +1,7 @@
 SPECIFICATION Spec
 CONSTANTS Kind = "bipartite"
   MaxN = 3
+  NegArgs = 2
   Depth = 2
   Batches <- SomeBatches
 INVARIANT Emit
